@@ -16,3 +16,19 @@ func dup(a int) int {
 func CallDup(a int) int { return dup(a) }
 
 const Pkg = "github.com/tencent/goom/zzverif/corpus/fn2"
+
+// dupS / Get: the same type and method names exist in fn and in the driver's package.
+type dupS struct{ Tag int }
+
+//go:noinline
+func (p *dupS) Get(a int) int {
+	if a < -10000 {
+		fmt.Println("never")
+	}
+	return a + 2250 + p.Tag
+}
+
+var dupInst = &dupS{}
+
+// CallDupM reaches (*dupS).Get of this package.
+func CallDupM(a int) int { return dupInst.Get(a) }
